@@ -192,6 +192,26 @@ def generator_case(rng):
             ("bipartite_shift", lambda: G.bipartite_shift(4, 4, pattern), [], [pattern]),
             ("VariableCompression", lambda: cnfgen.VariableCompression(cnfgen.PigeonholePrinciple(3, 1), b, "xor"), [b], []),
         ]
+        import networkx
+        nxg = [networkx.path_graph(4), networkx.relabel_nodes(networkx.cycle_graph(4), {0: "a", 1: "b", 2: "c", 3: "d"}),
+               networkx.grid_2d_graph(2, 2), networkx.DiGraph([(0, 1), (1, 2), (0, 2)])]
+
+        def nxsnap(h):
+            return (sorted(map(repr, h.nodes())), sorted(map(repr, h.edges())), dict(h.graph))
+        for h, fns in ((nxg[0], ("TseitinFormula", "GraphColoringFormula", "Tiling", "PerfectMatchingPrinciple")),
+                       (nxg[1], ("TseitinFormula", "DominatingSet")), (nxg[2], ("GraphColoringFormula", "CliqueFormula")),
+                       (nxg[3], ("PebblingFormula",))):
+            for fn in fns:
+                before = nxsnap(h)
+                try:
+                    if fn in ("GraphColoringFormula", "DominatingSet", "CliqueFormula"):
+                        getattr(cnfgen, fn)(h, 2)
+                    else:
+                        getattr(cnfgen, fn)(h)
+                except Exception as e:
+                    return {"generator": fn, "networkx_argument": True, "raised": type(e).__name__, "msg": str(e)[:100]}
+                if nxsnap(h) != before:
+                    return {"generator": fn, "networkx_graph_argument_changed": nxsnap(h)[0], "was": before[0]}
         for name, call, graphs, lists in calls:
             gs = [snap_graph(x) for x in graphs]
             ls = [list(x) for x in lists]
